@@ -222,7 +222,9 @@ impl SwiftField for Field53D {
         let mut name_and_address = Vec::new();
         for (i, line) in lines.iter().enumerate() {
             if i >= 4 {
-                break;
+                return Err(ParseError::InvalidFormat {
+                    message: "Field 53D cannot have more than 4 name/address lines".to_string(),
+                });
             }
             if line.len() > 35 {
                 return Err(ParseError::InvalidFormat {
